@@ -1152,6 +1152,12 @@ func main() {
 			must(err)
 			b.WriteString(leanStrList(sp.lean, sh))
 		}
+		// ipv4: how the identifier of an outgoing packet is chosen
+		{
+			sh, err := ip4.mentionShape("endpoint", "WritePacket", "id")
+			must(err)
+			b.WriteString(leanStrList("ipv4_id_alloc", sh))
+		}
 		b.WriteString("\nend Gen.Shapes\n")
 		write("Shapes", b.String())
 	}
